@@ -11,6 +11,25 @@ EXTENDS Automaton, TLC, Json, IOUtils
 Dumps == ndJsonDeserialize(IOEnv.DUMPS)
 VARIABLE i
 Mode == IOEnv.MODE          \* "full": C04 oracles + TableWF;  "wf": TableWF only
+\* the grammar the compiler built vs the grammar the user wrote (carried next to the text as
+\* d.meta.abs = <<<<rule name, <<alternatives as sequences of symbol names>>>>, ...>>): every
+\* oracle below works on the BUILT grammar, so the two have to be the same first
+SymName(T, x) == IF x < T.nterm THEN T.terms[x + 1].name ELSE T.nonterms[x - T.nterm + 1].name
+AbsDiff(T, abs) ==
+  UNION {
+    LET name == abs[r][1]
+        alts == abs[r][2]
+        S == {k \in 1 .. Len(T.nonterms) : T.nonterms[k].name = name}
+    IN IF S = {} THEN {<<"rule_missing", name>>}
+       ELSE LET nt == T.nonterms[CHOOSE k \in S : TRUE]
+            IN IF Len(nt.prods) # Len(alts) THEN {<<"production_count", name, Len(nt.prods), Len(alts)>>}
+               ELSE {<<"production_differs", name, a>> :
+                       a \in {x \in 1 .. Len(alts) :
+                                LET rhs == T.prods[nt.prods[x] + 1].rhs
+                                IN [j \in 1 .. Len(rhs) |-> SymName(T, rhs[j])] # alts[x]}}
+    : r \in 1 .. Len(abs)}
+  \cup (IF Len(abs) >= 1 /\ SymName(T, T.start) # abs[1][1] THEN {<<"start_rule", SymName(T, T.start)>>} ELSE {})
+
 Verdict(d) ==
   LET T == d.t
       C == Ctx(T)
@@ -29,6 +48,7 @@ Verdict(d) ==
       lalr_ok |-> (lalr => \A qt \in conf :
                       Cardinality({a \in TCell(T, qt[1], qt[2]) : a.k # "r" \/ a.n = RhsLen(T, a.p)}) <= 1),
       wf |-> WFDefects(T, C),
+      absdiff |-> IF "abs" \in DOMAIN d.meta THEN AbsDiff(T, d.meta.abs) ELSE {},
       epsloop |-> Cardinality(EpsLoops(T)),
       \* binding of the OPERATIONAL construction model: Automaton.Build (FIFO work list,
       \* merge test, propagation) must reproduce the dumped automaton state by state
